@@ -46,6 +46,9 @@ impl Distribution for DiscreteUniform {
     type Output = f64;
     /// Samples from the given discrete uniform distribution.
     fn sample(&self) -> f64 {
+        if self.lower == self.upper {
+            return self.lower as f64;
+        }
         alea::i64_in_range(self.lower, self.upper) as f64
     }
 }
